@@ -369,6 +369,255 @@ static void modeHist(const Case& c)
     fflush(g_out);
 }
 
+
+// ------------------------------------------------------------------------------------------
+// C10: one multigrid cycle, called directly (private cycle functions reached with -fno-access-control)
+// ------------------------------------------------------------------------------------------
+static bool denseSolve(std::vector<double>& M, std::vector<double>& b, int n)
+{
+    // Gaussian elimination with partial pivoting, in place; b becomes the solution
+    for (int c = 0; c < n; c++) {
+        int p = c;
+        double best = std::fabs(M[(size_t)c * n + c]);
+        for (int r = c + 1; r < n; r++)
+            if (std::fabs(M[(size_t)r * n + c]) > best) {
+                best = std::fabs(M[(size_t)r * n + c]);
+                p    = r;
+            }
+        if (best == 0.0)
+            return false;
+        if (p != c) {
+            for (int k = c; k < n; k++)
+                std::swap(M[(size_t)p * n + k], M[(size_t)c * n + k]);
+            std::swap(b[p], b[c]);
+        }
+        const double piv = M[(size_t)c * n + c];
+        for (int r = c + 1; r < n; r++) {
+            double f = M[(size_t)r * n + c] / piv;
+            if (f == 0.0)
+                continue;
+            double* Mr       = &M[(size_t)r * n];
+            const double* Mc = &M[(size_t)c * n];
+            for (int k = c + 1; k < n; k++)
+                Mr[k] -= f * Mc[k];
+            b[r] -= f * b[c];
+        }
+    }
+    for (int r = n - 1; r >= 0; r--) {
+        double sum = b[r];
+        for (int k = r + 1; k < n; k++)
+            sum -= M[(size_t)r * n + k] * b[k];
+        b[r] = sum / M[(size_t)r * n + r];
+    }
+    return true;
+}
+
+static std::vector<double> extractDenseA(const Level& L)
+{
+    const int N = L.grid().numberOfNodes();
+    std::vector<double> A((size_t)N * N, 0.0);
+    Vector<double> x(N), f(N), y(N);
+    zero(f);
+    for (int j = 0; j < N; j++) {
+        unit(x, j);
+        L.computeResidual(y, f, x);
+        for (int i = 0; i < N; i++)
+            A[(size_t)i * N + j] = -y[i];
+    }
+    return A;
+}
+
+static double maxAbsDiff(const Vector<double>& a, const Vector<double>& b)
+{
+    double m = 0;
+    for (int i = 0; i < a.size(); i++)
+        m = std::max(m, std::fabs(a[i] - b[i]));
+    return m;
+}
+static double maxAbs(const Vector<double>& a)
+{
+    double m = 0;
+    for (int i = 0; i < a.size(); i++)
+        m = std::max(m, std::fabs(a[i]));
+    return m;
+}
+static bool bitEqual(const Vector<double>& p, const Vector<double>& q)
+{
+    return p.size() == q.size() && std::memcmp(p.begin(), q.begin(), sizeof(double) * p.size()) == 0;
+}
+
+// expected result of a two-level cycle without smoothing, formed from the public operators
+static Vector<double> algebraicCorrection(GMGPolar& s, bool extrap, const Vector<double>& u, const Vector<double>& f,
+                                          const Vector<double>& fc)
+{
+    Level& L0 = s.levels_[0];
+    Level& L1 = s.levels_[1];
+    const int N = L0.grid().numberOfNodes(), Nc = L1.grid().numberOfNodes();
+    Vector<double> r(N), rc(Nc), e(N), out(N);
+    L0.computeResidual(r, f, u);
+    if (!extrap) {
+        s.interpolation_->applyRestriction(L0, L1, rc, r);
+        L1.directSolveInPlace(rc);
+        s.interpolation_->applyProlongation(L1, L0, e, rc);
+    }
+    else {
+        Vector<double> uc(Nc), r2(Nc);
+        s.interpolation_->applyExtrapolatedRestriction(L0, L1, rc, r);
+        s.interpolation_->applyInjection(L0, L1, uc, u);
+        L1.computeResidual(r2, fc, uc);
+        for (int i = 0; i < Nc; i++)
+            rc[i] = 4.0 / 3.0 * rc[i] - 1.0 / 3.0 * r2[i];
+        L1.directSolveInPlace(rc);
+        s.interpolation_->applyExtrapolatedProlongation(L1, L0, e, rc);
+    }
+    for (int i = 0; i < N; i++)
+        out[i] = u[i] + e[i];
+    return out;
+}
+
+static void modeCycle(const Case& c)
+{
+    Cfg k                = Cfg::fromCase(c);
+    k.fmg                = 0;
+    const std::string id = c.str("id", "case");
+    const bool extrap    = k.extr != 0;
+    const int type       = k.cycle;
+    uint64_t seed        = (uint64_t)c.i("seed", 0);
+    std::ostringstream os;
+    os << "RES id=" << id << " ";
+    try {
+        auto s = makeSolver(k);
+        s->setup();
+        const int L = s->number_of_levels_;
+        Level& L0   = s->levels_[0];
+        const int N = L0.grid().numberOfNodes();
+        os << "status=ok levels=" << L << " nr=" << L0.grid().nr() << " nt=" << L0.grid().ntheta();
+
+        // ---- (a) the exact solution of the system the cycle iterates on is a fixed point
+        if (c.i("do_exact", 1)) {
+            std::vector<double> A = extractDenseA(L0);
+            std::vector<double> g(N);
+            for (int i = 0; i < N; i++)
+                g[i] = L0.rhs()[i];
+            std::vector<double> M = A;
+            // plain discrete solution first (also the control start for the extrapolated cycles)
+            std::vector<double> Mplain = A, uplain = g;
+            bool ok = denseSolve(Mplain, uplain, N);
+            std::vector<double> ustar = uplain;
+            if (extrap) {
+                Level& L1           = s->levels_[1];
+                const int Nc        = L1.grid().numberOfNodes();
+                std::vector<double> Ac = extractDenseA(L1);
+                const PolarGrid& fg = L0.grid();
+                const PolarGrid& cg = L1.grid();
+                for (int ci = 0; ci < cg.nr(); ci++)
+                    for (int cj = 0; cj < cg.ntheta(); cj++) {
+                        int cidx = cg.index(ci, cj), fi = fg.index(2 * ci, 2 * cj);
+                        for (int j = 0; j < N; j++)
+                            M[(size_t)fi * N + j] = 4.0 * A[(size_t)fi * N + j];
+                        for (int c2 = 0; c2 < cg.nr(); c2++)
+                            for (int c3 = 0; c3 < cg.ntheta(); c3++) {
+                                double v = Ac[(size_t)cidx * Nc + cg.index(c2, c3)];
+                                if (v != 0.0)
+                                    M[(size_t)fi * N + fg.index(2 * c2, 2 * c3)] -= v;
+                            }
+                        g[fi] = 4.0 * L0.rhs()[fi] - L1.rhs()[cidx];
+                    }
+                ustar = g;
+                ok    = ok && denseSolve(M, ustar, N);
+            }
+            Vector<double> u0(N), u1(N);
+            for (int i = 0; i < N; i++)
+                u0[i] = ustar[i];
+            L0.solution() = u0;
+            runCycle(*s, type, extrap, 0, L0.solution(), L0.rhs(), L0.residual());
+            u1 = L0.solution();
+            os << " solved=" << ok << " fixmove=" << dec(maxAbsDiff(u1, u0) / std::max(maxAbs(u0), 1e-300));
+            if (extrap) {
+                // control: the plain discrete solution is NOT a fixed point of the extrapolated cycle
+                Vector<double> p0(N);
+                for (int i = 0; i < N; i++)
+                    p0[i] = uplain[i];
+                L0.solution() = p0;
+                runCycle(*s, type, extrap, 0, L0.solution(), L0.rhs(), L0.residual());
+                os << " controlmove=" << dec(maxAbsDiff(L0.solution(), p0) / std::max(maxAbs(p0), 1e-300));
+            }
+        }
+        // generic start vector
+        Vector<double> start(N);
+        for (int i = 0; i < N; i++)
+            start[i] = 0.01 * filler(seed + 5, i);
+        // ---- (d) two consecutive cycles from the same start on one object
+        L0.solution() = start;
+        runCycle(*s, type, extrap, 0, L0.solution(), L0.rhs(), L0.residual());
+        Vector<double> r1 = L0.solution();
+        L0.solution()     = start;
+        runCycle(*s, type, extrap, 0, L0.solution(), L0.rhs(), L0.residual());
+        Vector<double> r2 = L0.solution();
+        bool finite       = true;
+        for (int i = 0; i < N; i++)
+            if (!std::isfinite(r1[i]))
+                finite = false;
+        os << " repeat=" << bitEqual(r1, r2) << " finite=" << finite;
+        // ---- (c) scratch independence: a second object whose work vectors hold arbitrary old data
+        {
+            auto b = makeSolver(k);
+            b->setup();
+            for (size_t d = 1; d < b->levels_.size(); d++) {
+                fill(b->levels_[d].solution(), seed + 10 * d + 1);
+                fill(b->levels_[d].residual(), seed + 10 * d + 2);
+                fill(b->levels_[d].error_correction(), seed + 10 * d + 3);
+            }
+            fill(b->levels_[0].residual(), seed + 4);
+            b->levels_[0].solution() = start;
+            runCycle(*b, type, extrap, 0, b->levels_[0].solution(), b->levels_[0].rhs(), b->levels_[0].residual());
+            os << " scratch=" << bitEqual(b->levels_[0].solution(), r1)
+               << " scratchdiff=" << dec(maxAbsDiff(b->levels_[0].solution(), r1));
+        }
+        // ---- (b) without smoothing a two-level cycle is the algebraic coarse-grid correction
+        if (L == 2 && k.pre == 0 && k.post == 0 && c.i("do_alg", 1)) {
+            Vector<double> fc = s->levels_[1].rhs().size() ? s->levels_[1].rhs() : Vector<double>(s->levels_[1].grid().numberOfNodes());
+            double worst = 0, worstScale = 1;
+            int worstCol = -1, cols = 0;
+            Vector<double> u(N), f(N), res(N);
+            for (int pass = 0; pass < 2; pass++)
+                for (int j = 0; j < N + 2; j++) {
+                    zero(u);
+                    zero(f);
+                    if (j < N)
+                        (pass == 0 ? u : f)[j] = 1.0;
+                    else {
+                        for (int i = 0; i < N; i++) {
+                            u[i] = 0.01 * filler(seed + 20 + j, i);
+                            f[i] = 0.01 * filler(seed + 30 + j + pass, i);
+                        }
+                    }
+                    Vector<double> expect = algebraicCorrection(*s, extrap, u, f, fc);
+                    Vector<double> got = u, rhs = f;
+                    fill(res, seed + 40 + j);
+                    runCycle(*s, type, extrap, 0, got, rhs, res);
+                    double d = maxAbsDiff(got, expect), sc = std::max(maxAbs(expect), 1e-300);
+                    cols++;
+                    if (d / sc > worst) {
+                        worst    = d / sc;
+                        worstCol = pass * (N + 2) + j;
+                    }
+                    (void)worstScale;
+                }
+            os << " algcols=" << cols << " algworst=" << dec(worst) << " algcol=" << worstCol;
+        }
+    }
+    catch (const std::exception& ex) {
+        std::string w = ex.what();
+        for (auto& ch : w)
+            if (ch == ' ' || ch == '\n')
+                ch = '_';
+        os << "status=exception what=" << w;
+    }
+    fprintf(g_out, "%s\n", os.str().c_str());
+    fflush(g_out);
+}
+
 int main(int argc, char** argv)
 {
     if (argc < 2) {
@@ -392,6 +641,8 @@ int main(int argc, char** argv)
             modeFmgStart(c);
         else if (mode == "hist")
             modeHist(c);
+        else if (mode == "cycle")
+            modeCycle(c);
     }
     fclose(g_out);
     return 0;
